@@ -160,6 +160,12 @@ func (a *remoteAuthorizer) Execute(ctx heimdall.Context, sub *subject.Subject) e
 			var ai authorizationInformation
 
 			if err = json.Unmarshal(entry, &ai); err == nil {
+				// the cached response may have been stored by an authorizer instance with other (rule
+				// specific) expressions. So, it has to satisfy the expressions of this instance as well.
+				if err = a.verify(ctx, ai.Payload); err != nil {
+					return err
+				}
+
 				logger.Debug().Msg("Reusing authorization information from cache")
 
 				authInfo = &ai
